@@ -480,6 +480,17 @@ class LoopSummary:
         return ro, rets
 
     def __call__(self, it, fn, s, hdr, prev, depth):
+        if getattr(it, 'loop_leaves', None) is None:
+            it.loop_leaves = []
+        mark0 = len(it.loop_leaves)
+        r = self._summarise(it, fn, s, hdr, prev, depth, mark0)
+        if r is None:
+            del it.loop_leaves[mark0:]       # a failed summary leaves nothing behind
+        return r
+
+    def _summarise(self, it, fn, s, hdr, prev, depth, mark0):
+        # every region run below but the last is exploratory (havocked / candidate values): iteration leaves that loops BEHIND this one
+        # (reached through its exit inside the same function) produce during such a run are dropped before the next run starts
         d = it.dom
         loops = [l for l in fn.loops() if l[0] is hdr]
         if not loops:
@@ -523,6 +534,7 @@ class LoopSummary:
             hc[key] = d.fresh('h', nonnegative=True)
         s1, env = make(hp, hc)
         try:
+            del it.loop_leaves[mark0:]
             ro, rets = self.region(it, fn, hdr, s1, env, depth)
         except Unsupported:
             return None
@@ -658,6 +670,7 @@ class LoopSummary:
                     pass
             s2, env2 = make(vp, vc)
             try:
+                del it.loop_leaves[mark0:]
                 ro2, rets2 = self.region(it, fn, hdr, s2, env2, depth)
             except Unsupported:
                 del d.facts[base_facts_len:]
@@ -780,6 +793,7 @@ class LoopSummary:
             lf.loop_header = hdr.name
             lf.loop_t = t
             lf.loop_cur = {p.res: vp[p.res] for p in phis}
+            lf.loop_init = {p.res: init.get(p.res) for p in phis}
             lf.loop_next = {}
             for p in phis:
                 try:
@@ -802,6 +816,15 @@ class LoopSummary:
             if nm:
                 ev[nm] = vp[p_.res]
         self.exit_vals[(fn.name, hdr.name)] = ev
+        # the same by role: of two integer loop variables the one starting at a constant is the lower end of a search interval
+        if not hasattr(self, 'exit_roles'):
+            self.exit_roles = {}
+        ints_ = [p_ for p_ in phis if not isinstance(init.get(p_.res), Ptr) and not p_.ty.is_ptr]
+        if len(ints_) == 2 and len(phis) == 2:
+            const_ = [p_ for p_ in ints_ if init.get(p_.res) is not None and sp.sympify(init[p_.res]).is_Integer]
+            if len(const_) == 1:
+                other_ = [p_ for p_ in ints_ if p_ is not const_[0]][0]
+                self.exit_roles[(fn.name, hdr.name)] = {'lo': vp[const_[0].res], 'hi': vp[other_.res]}
         self.notes.append('%s: loop at %s summarised (%d closed forms, %d bounded values, %d iteration paths)' % (
             fn.name, hdr.name, len(steps_p) + len(steps_c), len(set(c[0] for c in cand)), len(ro2)))
         return rets2
